@@ -82,7 +82,7 @@ SHORT_NAMES = ("network", "segments", "noise", "coder", "logger", "axolotl_contr
                "axolotl_parallel", "protocol_parallel", "top")
 
 SEND_KINDS = ("iq_ping", "presence", "raw_node", "bare_node", "unencodable", "oversize", "oversize_exact", "largest_ok")
-RECV_KINDS = ("iq_ping_from_server", "receipt", "ack", "presence", "notification_unsupported",
+RECV_KINDS = ("iq_ping_from_server", "pong", "receipt", "ack", "presence", "notification_unsupported",
               "garbage", "decrypt_fail")
 
 DOWN_CAUSES = ("generic", "unencodable", "oversize", "not_transport")
@@ -609,7 +609,8 @@ class Rig(object):
             def toProtocolTreeNode(self):
                 return self._node
         if kind == "iq_ping":
-            return PingIqProtocolEntity(to=SERVER, _id=self._id("ping"))
+            self.last_ping_id = self._id("ping")
+            return PingIqProtocolEntity(to=SERVER, _id=self.last_ping_id)
         if kind == "presence":
             return PresenceProtocolEntity(_type="available", name="rig")
         if kind in ("msg_a", "msg_b"):
@@ -677,6 +678,10 @@ class Rig(object):
         if kind == "iq_ping_from_server":
             node = ProtocolTreeNode("iq", {"type": "get", "xmlns": "urn:xmpp:ping", "from": SERVER,
                                            "id": self._id("sping")})
+        elif kind == "pong":
+            # the server's answer to the application's last ping (a ping the keep-alive bookkeeping never saw)
+            node = ProtocolTreeNode("iq", {"type": "result", "from": SERVER,
+                                           "id": getattr(self, "last_ping_id", None) or "no-such-ping"})
         elif kind == "receipt":
             node = ProtocolTreeNode("receipt", {"id": self._id("rcpt"), "from": PEER_JID, "t": "1500000000"})
         elif kind == "ack":
